@@ -148,6 +148,25 @@ def run_case(case):
                     fr_ = getattr(fm, base + "_ratio")
                     check(base + "_difference", kw, lambda: fd_(y, p, sensitive_features=g, method=method, **wkw), agg[base][dk], w)
                     check(base + "_ratio", kw, lambda: fr_(y, p, sensitive_features=g, method=method, **wkw), agg[base][rk], w)
+        # call history: the calls just made asked for method="to_overall" (and agg="mean"); a call that does not
+        # request a method must still be the documented default (between_groups / worst_case), whatever was
+        # requested before (seeded change C03d: a mutable default shared by all derived metrics)
+        out["classes"].add("default_after_to_overall")
+        check("demographic_parity_difference", {}, lambda: fm.demographic_parity_difference(y, p, sensitive_features=g, **wkw), agg["selection_rate"]["diff_b"], w)
+        check("demographic_parity_ratio", {}, lambda: fm.demographic_parity_ratio(y, p, sensitive_features=g, **wkw), agg["selection_rate"]["ratio_b"], w)
+        check("equal_opportunity_difference", {}, lambda: fm.equal_opportunity_difference(y, p, sensitive_features=g, **wkw), agg["true_positive_rate"]["diff_b"], w)
+        check("equal_opportunity_ratio", {}, lambda: fm.equal_opportunity_ratio(y, p, sensitive_features=g, **wkw), agg["true_positive_rate"]["ratio_b"], w)
+        check("equalized_odds_difference", {}, lambda: fm.equalized_odds_difference(y, p, sensitive_features=g, **wkw),
+              max(agg["true_positive_rate"]["diff_b"], agg["false_positive_rate"]["diff_b"]), w)
+        for base in ("selection_rate", "true_positive_rate", "false_positive_rate", "true_negative_rate",
+                     "false_negative_rate", "accuracy_score", "zero_one_loss"):
+            fd0_ = getattr(fm, base + "_difference")
+            fr0_ = getattr(fm, base + "_ratio")
+            # one explicit to_overall call directly before the default call of the *other* generated function
+            check(base + "_ratio", {"method": "to_overall"}, lambda: fr0_(y, p, sensitive_features=g, method="to_overall", **wkw), agg[base]["ratio_o"], w)
+            check(base + "_difference", {}, lambda: fd0_(y, p, sensitive_features=g, **wkw), agg[base]["diff_b"], w)
+            check(base + "_difference", {"method": "to_overall"}, lambda: fd0_(y, p, sensitive_features=g, method="to_overall", **wkw), agg[base]["diff_o"], w)
+            check(base + "_ratio", {}, lambda: fr0_(y, p, sensitive_features=g, **wkw), agg[base]["ratio_b"], w)
         check("accuracy_score_group_min", {}, lambda: fm.accuracy_score_group_min(y, p, sensitive_features=g, **wkw), agg["accuracy_score"]["min"], w)
         check("zero_one_loss_group_max", {}, lambda: fm.zero_one_loss_group_max(y, p, sensitive_features=g, **wkw), agg["zero_one_loss"]["max"], w)
         if w is None:
@@ -200,6 +219,18 @@ def run_case(case):
                 if not close(got, exp) or not close(got, R[key]):
                     V.append(viol("C03:derived:%s" % transform, "derived(%s,%s)=%r MetricFrame=%r first-principles=%r rows=%r w=%r" % (
                         transform, method, got, exp, R[key], rows, w), [exp, R[key]], got))
+            if transform in ("difference", "ratio"):
+                # the last call requested to_overall: a call without `method` is between_groups again
+                out["evals"] += 1
+                try:
+                    got0 = float(d(y, p, sensitive_features=g, **kw))
+                except Exception as e:
+                    V.append(viol("C03:derived:raises-%s" % type(e).__name__, "derived %s (default method) raised %r rows=%r w=%r" % (transform, e, rows, w)))
+                    continue
+                exp0 = R["diff_b" if transform == "difference" else "ratio_b"]
+                if not close(got0, exp0):
+                    V.append(viol("C03:derived:%s:default-after-to_overall" % transform, "derived(%s) without method=%r after a to_overall call; between_groups first-principles=%r rows=%r w=%r" % (
+                        transform, got0, exp0, rows, w), exp0, got0))
     out["outcome"] = outcome
     out["classes"] = sorted(out["classes"])
     return out
